@@ -204,7 +204,9 @@ class C01(Check):
     driver_exe = 'drv_c01'
     sources = ('cssutils/parse.py', 'cssutils/serialize.py', 'cssutils/tokenize2.py', 'cssutils/util.py',
                'cssutils/prodparser.py', 'cssutils/css/cssstylesheet.py', 'cssutils/css/value.py',
-               'cssutils/css/selector.py')
+               'cssutils/css/selector.py', 'cssutils/css/selectorlist.py', 'cssutils/css/cssstylerule.py',
+               'cssutils/css/cssmediarule.py', 'cssutils/css/cssstyledeclaration.py', 'cssutils/css/property.py',
+               'cssutils/stylesheets/medialist.py', 'cssutils/stylesheets/mediaquery.py', 'cssutils/cssproductions.py')
     trusted_base = (
         'Model/SerCost.lean: abstract cost model of value serialisation (one do_* entry per function node, k '
         'evaluations of a child per append); tied to serialize.py by counted do_css_CSSFunction entries on generated trees',
@@ -222,9 +224,12 @@ class C01(Check):
         """Props/C01 re-exports theorems of the tokenizer (C05) and structure (C04) kernels: their generated tables
         must be regenerated from the current tree for this check too"""
         files = {}
-        from harness import c05, c04
+        from harness import c05, c04, c16, c17
         files.update(c05.CHECK.translate(ctx))
         files.update(c04.CHECK.translate(ctx))
+        # the composed kernels (Model/ParseAll) run the selector machine and the media engine: their tables too
+        files.update(c16.CHECK.translate(ctx))
+        files.update(c17.CHECK.translate(ctx))
         return files
 
     def run(self, ctx):
